@@ -170,6 +170,11 @@ class FieldData:
 
   def _set_existing_field(self, fieldname, value, set_reference = False):
     renaming_connected = False
+    if value is not None and self.vlevel >= 3:
+      # (validated first: an invalid value shall leave everything unchanged)
+      self._field_or_default_datatype(fieldname, value)
+      gfapy.Field._validate_gfa_field(value, self._field_datatype(fieldname),
+          fieldname)
     if self._gfa:
       if not set_reference and \
         (fieldname in self.__class__.REFERENCE_FIELDS or \
@@ -197,10 +202,6 @@ class FieldData:
         # as in delete(): the datatype of a removed tag is forgotten
         self._datatype.pop(fieldname)
     else:
-      if self.vlevel >= 3:
-        self._field_or_default_datatype(fieldname, value)
-        gfapy.Field._validate_gfa_field(value, self._field_datatype(fieldname),
-            fieldname)
       self._data[fieldname] = value
     if renaming_connected:
       self._gfa._register_line(self)
